@@ -263,7 +263,9 @@ func init() {
 	register(&propDef{ID: "C16", Jobs: barrierJobs("C16"),
 		Rule:  "every schedule (preemption-bounded, iterative context bounding) of closed 2-3 thread drivers over {Acquire,Release,FlushSession} on the real AccessBarrier; non-trivial = schedule deviating from the default one with at least one context switch, distinct by observation hash",
 		Notes: []string{"Go atomics are sequentially consistent; plain accesses are atomic with the step containing them", "'before that flush' is read as before the FlushSession call"}})
-	register(&propDef{ID: "C17", Jobs: barrierJobs("C17"),
-		Rule:  "same drivers and schedules as C16; oracle evaluated at quiescence (all tokens released, all calls returned): destructor calls == FlushSession calls and nothing queued",
+	register(&propDef{ID: "C17", Jobs: func(tier string) []Job {
+		return append(barrierJobs("C17")(tier), smrJobs("C17")(tier)...)
+	},
+		Rule:  "same drivers and schedules as C16; oracle evaluated at quiescence (all tokens released, all calls returned): destructor calls == FlushSession calls and nothing queued; nitro level: the C04 concurrent drivers (user-managed memory), once the database is idle the allocator must hold exactly the linked nodes (no unlinked node waiting for a future flush)",
 		Notes: []string{"Go atomics are sequentially consistent; plain accesses are atomic with the step containing them"}})
 }
